@@ -346,6 +346,10 @@ def check_relaxation(run, pkg, cls, pbc, nl, sel, slow):
         ok, how = S.decide_equal(g, want[name])
         if ok is False and atoms:
             ok = None
+        if ok is False and (g.free_symbols - want[name].free_symbols) & set(asym.values()):
+            # the column involves an array whose role was not identified (e.g. visit counts assigned in closed form instead of
+            # incremented): not comparable with the reference monomial - undecided, never a violation
+            ok = None
         run.ob("R-ALG", fq, f"{cfg}:col-{name}", ok, {"isf": "isf = accumulated/counts", "Qt": "Qt = accumulated/counts", "msd": "msd = accumulated/counts",
                "alpha2": "alpha2 = alpha2factor(d) <r^4>/<r^2>^2 - 1", "X4_Qt": "chi4 = (<Q^2> - <Q>^2) * N_selected"}[name],
                f"code: {sp.sstr(g)[:140]}", witness=None if ok is not False else how, loc=loc, sound=True)    # monomials in the identified accumulators and counts
